@@ -43,6 +43,39 @@ class Tables:
         s.set('timeout', 120000)
         return s
 
+    CHUNK = 300
+
+    def _level_chunks(self):
+        """groups of consecutive whole levels with at most ~CHUNK ops each"""
+        groups, cur = [], []
+        for a, b in zip(self.so.level_starts, self.so.level_stops):
+            if cur and len(cur) + (b - a) > self.CHUNK: groups.append(cur); cur = []
+            cur = cur + list(range(int(a), int(b)))
+        if cur: groups.append(cur)
+        return groups
+
+    def chunked(self, which):
+        """large op lists: the query is split into sub-queries over groups of whole levels (Q1) / blocks of ops (Q2); same verdict"""
+        tot = 0.0
+        if self.n <= 2 * self.CHUNK:
+            return (self.q_same_level_conflict if which == 'q1' else self.q_operand_not_ready)()
+        groups = self._level_chunks() if which == 'q1' else [list(range(k, min(self.n, k + self.CHUNK))) for k in range(0, self.n, self.CHUNK)]
+        full_ops, full_lvl, full_n = self.ops, self.lvl, self.n
+        try:
+            for g in groups:
+                self.ops, self.lvl, self.n = full_ops[g], full_lvl[g], len(g)
+                r, wit, dt = (self.q_same_level_conflict if which == 'q1' else self._q2_sub)(*(() if which == 'q1' else (full_ops, full_lvl)))
+                tot += dt
+                if r != z3.unsat:
+                    if r == z3.sat and which == 'q1': wit = (g[wit[0]], g[wit[1]])
+                    return r, wit, tot
+        finally:
+            self.ops, self.lvl, self.n = full_ops, full_lvl, full_n
+        return z3.unsat, None, tot
+
+    def _q2_sub(self, full_ops, full_lvl):
+        return self.q_operand_not_ready(full_ops=full_ops, full_lvl=full_lvl)
+
     # ------------------------------------------------------------------ C07 Q1: same-level conflicts
     def q_same_level_conflict(self):
         """exists i != j in the same level: the region written by i overlaps a region read or written by j
@@ -73,7 +106,7 @@ class Tables:
         return r, None, dt
 
     # ------------------------------------------------------------------ C07 Q2: operands ready
-    def q_operand_not_ready(self):
+    def q_operand_not_ready(self, full_ops=None, full_lvl=None):
         """exists op i and operand k: the (stem-mapped) operand is neither the zero slot nor an interface input slot nor
         written by an op of a strictly earlier level."""
         if self.n < 1: return z3.unsat, None, 0.0
@@ -81,8 +114,8 @@ class Tables:
         wlevel = [-1] * self.N                      # level in which a line / slot is written; 0 = interface input or constant zero
         for i in range(so.s_len): wlevel[so.ppi_offset + i] = 0
         wlevel[so.zero_idx] = 0
-        for r, o in enumerate(ops):
-            wlevel[self.stem[int(o[1])]] = int(self.lvl[r])
+        for r, o in enumerate(ops if full_ops is None else full_ops):
+            wlevel[self.stem[int(o[1])]] = int((self.lvl if full_lvl is None else full_lvl)[r])
         I, K = z3.Int('i'), z3.Int('k')
         cons = []
         LV, c0 = _tab('lvl', self.lvl); cons += c0
